@@ -4,6 +4,7 @@ import Uom.Gen.Table
 import Uom.Gen.Names
 import Uom.Gen.Certs
 import Uom.Proofs.BodyEq.UnitsEnum
+import Uom.Proofs.BodyEq.FmtGlue
 /-!
 # C05 — the SI unit tables are mutually coherent and anchored
 
@@ -198,6 +199,15 @@ theorem src_units_enum_labels (names : List Bytes) (abbr sing plur : Nat → Byt
     nothing is filtered, mapped or reordered between the declaration list and what the caller iterates over -/
 theorem src_units_is_all_units (all : List Nat) :
     run (envRegistry all) quantity_free_units [] = (.val (.host all), []) := units_eq all
+
+/-- `<unit as Unit>::abbreviation() / singular() / plural()` (src/unit.rs) return the three label literals of the
+    unit's declaration line, each its own (three different names) -/
+theorem src_unit_labels (a sg pl : Bytes) :
+    (run (Uom.BodyEq.FmtGlue.envConst c_abbreviation (.str a)) unit_Unit_for_unit_abbreviation [] = (.val (.str a), []) ∧
+     run (Uom.BodyEq.FmtGlue.envConst c_singular (.str sg)) unit_Unit_for_unit_singular [] = (.val (.str sg), []) ∧
+     run (Uom.BodyEq.FmtGlue.envConst c_plural (.str pl)) unit_Unit_for_unit_plural [] = (.val (.str pl), [])) ∧
+    (c_abbreviation ≠ c_singular ∧ c_abbreviation ≠ c_plural ∧ c_singular ≠ c_plural) :=
+  ⟨Uom.BodyEq.FmtGlue.unit_labels_eq a sg pl, Uom.BodyEq.FmtGlue.unit_label_names_distinct⟩
 
 /-- the three `Unit` methods are three different functions of the environment (so the statement above can tell a
     swapped flavour) -/
